@@ -10,7 +10,7 @@ RULE = ("graph searches on the real core code (Dijkstra, A* with weight factors 
         "worlds inside the property's hypotheses (edge-local frontier = forbid sets, edge-local positive costs, no "
         "failing model, no limit): deterministic families first (forbidden bridge / parallel twin / first hop / last "
         "hop, everything forbidden, two components, one-way streets, chains, relabelling, long hauls (edges summing to 2^20..1e9 cost units, then a zero-cost / sub-MIN_COST connector as the only way onward, then more vertices and a zero-cost 2-cycle: the clamped 1e-10 is absorbed by the f64 addition), edge-oriented with a "
-        "forbidden edge between or on the query edges; extreme weight factors {0, 5e-324, 1e-300, 1e300, 1e308, f64::MAX} from the algorithm config and from the query's weight_factor field with non-zero heuristic tables, so that f-scores underflow or are all +infinity, on reachable and unreachable destinations; plus searchkit's boundary families: dead-end origin, isolated "
+        "forbidden edge between or on the query edges; extreme weight factors {0, 5e-324, 1e-300, 1e300, 1e308, f64::MAX} from the algorithm config and from the query's weight_factor field with non-zero heuristic tables, so that f-scores underflow or are all +infinity, on reachable and unreachable destinations; family real_world: the network is written to CSV files and LOADED by Graph::from_files (connector edges of length 0, 1e-9, 1e-3 as the only link between two parts) and the frontier model is a REAL one built by CompassAppBuilder::build_frontier_model_service from generated files and instantiated with the query (vehicle restrictions for every pair of vehicle unit x limit unit - meters/kilometers/miles/inches/feet, pounds/tons/kg - with the limit 20 % below and 25 % above the vehicle's quantity on the only connecting edge; road-class tables with ids >= 64 whose connector class is congruent modulo 64 to a permitted class; combined), vertex-oriented forward Dijkstra/A*, where S takes as permitted edges those that C04's specification Model/FrontierSpec.v admits (exact unit factors, class membership); plus searchkit's boundary families: dead-end origin, isolated "
         "or neighbouring destination, self loops, parallel edges, one-way ring, destination edge adjacent to / "
         "reverse of / ending at the start of the origin edge), then EVERY digraph on <= 2 vertices (thorough: <= 3) "
         "with self loops, plus one with a parallel twin, x every ordered pair and every destination-less origin x both "
@@ -77,6 +77,9 @@ def fix_ties(r):
     M, I = r.model.get("M", {}), r.impl.get("I", {})
     k = 0
     for cid, m in list(M.items()):
+        if m == "unspecified" and cid in I:
+            # real_world family: the specification leaves some edge undecided (both lines say so): nothing to compare
+            M[cid] = I[cid]
         if m.startswith("TIE:") and cid in I:
             k += 1
             # the I payload may be hashed (long label lists): the status is the first word of the case's impl_short
@@ -95,6 +98,8 @@ def run(chk):
         "runner coq/Model/ReachRun.v (what is compared; the class predicate `specified`)",
         "priority_queue crate specified as 'pop returns an entry of minimal priority; push_increase keeps the smaller "
         "cost'; std HashMap as a finite map",
+        "real_world family: coq/Model/ReachReal.v and C04's specification coq/Model/FrontierSpec.v (which edges the "
+        "restriction rows / class table / query admit)",
         "Rust harness harness/src/searchkit.rs, harness/src/bin/c05.rs and this driver",
         "stream app_reach: harness/src/bin/e2e.rs (configuration / network writers, classification of the `error` text: "
         "`no path exists between` = nopath; permitted edges computed from the road-class file and the query's list), "
@@ -116,7 +121,7 @@ def run(chk):
         if not res.get("ok", False):
             vf.log("translator %s: %s (owned by another check; its previous output is used)" % (name, res.get("msg")))
     # Props/Termination.v: termination of the re-opening loop with an explicit fuel bound (makes c05_answer_iff total)
-    chk.proofs(extra_targets=["Model/ReachRun.vo", "Model/E2ERun.vo"], extra_props=["Props/Termination.v"])
+    chk.proofs(extra_targets=["Model/ReachRun.vo", "Model/ReachReal.vo", "Model/E2ERun.vo"], extra_props=["Props/Termination.v"])
     if replay_stream(chk) == "app_reach":
         run_app_stream(chk)
         return finish(chk)
